@@ -78,6 +78,11 @@ def contexts(as_mid, as_low):
         out['global+exact'] = D({'shared': 'g', 'own2': 'g2'}, fn={(low or mid): {'shared': 'exact'}})
         out['list-ns'] = {'kind': 'list', 'items': [D(fn={(low or mid): {'shared': 'first', 'own2': 'first2'}}), D(fn={(low or mid): {'shared': 'second'}})]}
         out['mutable-ns'] = D({'mut': {'g': [0]}}, fn={(low or mid): {'mut': [1, {'k': [2]}]}})
+    if mid:
+        # a context mounted `as <mid>` that itself plainly uses another file: that file belongs to <mid> too
+        out['uses-as-then-plain'] = F('json', {'own0': 'top'}, uses=[{'ctx': F('yaml', {'shared': 'via-as'}, uses=[{'ctx': F('json', {'mut': 'deep-plain'})}]), 'as': mid}])
+    if mid and as_low:
+        out['uses-as-then-as'] = F('json', {'own0': 'top'}, uses=[{'ctx': F('yaml', {'shared': 'via-as'}, uses=[{'ctx': F('json', {'mut': 'deep-as'}), 'as': as_low}]), 'as': mid}])
     if mid and as_low:
         out['parent-only'] = D(fn={mid: {'shared': 'parent', 'own2': 'parent2'}})  # must not reach mid::low
         out['uses-as'] = F('json', {'own0': 'top'}, uses=[{'ctx': F('yaml', {'shared': 'via-as'}, fn={as_low: {'own2': 'nested'}}), 'as': mid}])
@@ -92,7 +97,7 @@ def tree_family(tier):
     for as_mid, as_low in itertools.product((None, 'a'), (None, 'b')):
         for media in medias:
             for cname, ctx in contexts(as_mid, as_low).items():
-                if tier == 'quick' and media != 'jjy' and cname not in ('none', 'exact', 'list2', 'uses-as', 'global+exact'):
+                if tier == 'quick' and media != 'jjy' and cname not in ('none', 'exact', 'list2', 'uses-as', 'global+exact', 'uses-as-then-plain'):
                     continue
                 d = base_desc(as_mid, as_low, media)
                 d['context'] = ctx
